@@ -1,0 +1,13 @@
+//go:build verif
+
+package udp
+
+// Contracts for the verification machinery in /verif (not compiled without the tag "verif").
+
+// oob is arbitrary: besides kernel control messages this parser is handed the data of a SCION end-to-end
+// extension option taken from a received packet (core/client/client_scion.go), before any authentication.
+//@ func TimestampFromOOBData
+//@   loop 0 decreases len(oob)
+
+//@ func TimestampLen
+//@   ensures result == 64
